@@ -14,11 +14,18 @@
              wrong-first-frame request (QPACK_DECOMPRESSION_FAILED / H3_FRAME_UNEXPECTED), or a peer GOAWAY whose
              identifier is larger than the previous one (H3_ID_ERROR).  An equal or smaller one is legal.
    Safety:   accept() answers "no more requests" only when every request handed out has ended.
-   Liveness: once the peer's GOAWAY has arrived, every request handed out has ended and no request
-             stream is waiting, accept() does not answer "pending". *)
+   Liveness: once the peer's GOAWAY has arrived, every request handed out has ended, no request
+             stream is waiting and the control stream is writable, accept() does not answer "pending". *)
 From H3V Require Import Base.Bytes Spec.GoawaySpec.
 
-Inductive fail_kind := KFin | KReset | KBadQpack | KUnexpected | KMalformed.
+Inductive fail_kind :=
+| KFin | KReset            (* FIN / RESET before any byte of HEADERS *)
+| KBadQpack | KUnexpected  (* undecodable field section / first frame is not HEADERS: connection errors *)
+| KMalformed               (* decodable but not a valid request: stream error *)
+| KTooBig                  (* field section above the server's limit: 431 response, stream error *)
+| KTruncFin                (* FIN inside the HEADERS frame: connection error H3_FRAME_ERROR *)
+| KTruncReset              (* RESET inside the HEADERS frame *)
+| KUnknown.                (* the transport reports an error of its own on the request stream *)
 
 Inductive dop :=
 | DArrive (id : N)                       (* the peer opened request stream id (nothing sent on it yet) *)
@@ -33,7 +40,9 @@ Inductive dop :=
 | DSplit (id : N)                        (* the request stream is split into its two halves *)
 | DDropHalf (id : N) (send : bool).      (* one half is dropped *)
 
-Inductive dev := DI (o : dop) | DO (e : gev).
+(* DW: flow control on the server's control stream closed (true) / reopened (false);
+   DX: the QUIC connection failed with an error of the transport's own *)
+Inductive dev := DI (o : dop) | DO (e : gev) | DW (blocked : bool) | DX.
 
 (* what the application holds for a request *)
 Inductive aobj := AResolver | AStream | AHalves (send recv : bool).
@@ -79,20 +88,26 @@ Record astate := { a_objs : list (N * aobj);   (* requests handed out and not ye
                    a_goaway : bool;            (* the peer's GOAWAY has arrived *)
                    a_wait : list N;            (* request streams opened by the peer, not yet taken *)
                    a_lastgo : option N;        (* identifier of the peer's most recent GOAWAY *)
-                   a_excuse : list N }.        (* connection error codes the inputs so far justify *)
-Definition astate0 : astate := {| a_objs := []; a_goaway := false; a_wait := []; a_lastgo := None; a_excuse := [] |}.
+                   a_excuse : list N;          (* connection error codes the inputs so far justify *)
+                   a_blocked : bool }.         (* the server cannot write on its control stream *)
+Definition astate0 : astate :=
+  {| a_objs := []; a_goaway := false; a_wait := []; a_lastgo := None; a_excuse := []; a_blocked := false |}.
 
 Definition rfc_QPACK_DECOMPRESSION_FAILED : N := 512.   (* 0x0200, RFC 9204 6 *)
 Definition rfc_H3_FRAME_UNEXPECTED : N := 261.          (* 0x0105 *)
+Definition rfc_H3_FRAME_ERROR : N := 262.               (* 0x0106 *)
+Definition transport_error : N := 0.                    (* not an HTTP/3 code: the transport's own error, passed through *)
 (* the connection error a failed request justifies *)
 Definition fail_excuse (op : dop) : list N :=
   match op with
   | DHeadersFail _ KBadQpack => [rfc_QPACK_DECOMPRESSION_FAILED]
   | DHeadersFail _ KUnexpected => [rfc_H3_FRAME_UNEXPECTED]
+  | DHeadersFail _ KTruncFin => [rfc_H3_FRAME_ERROR]
   | _ => []
   end.
 Definition st_objs (st : astate) (o : list (N * aobj)) (w : list N) (ex : list N) : astate :=
-  {| a_objs := o; a_goaway := a_goaway st; a_wait := w; a_lastgo := a_lastgo st; a_excuse := ex |}.
+  {| a_objs := o; a_goaway := a_goaway st; a_wait := w; a_lastgo := a_lastgo st; a_excuse := ex;
+     a_blocked := a_blocked st |}.
 
 Definition app_step (st : astate) (e : dev) : astate :=
   match e with
@@ -102,7 +117,11 @@ Definition app_step (st : astate) (e : dev) : astate :=
          a_excuse := (match a_lastgo st with
                       | Some p => if p <? pid then [rfc_H3_ID_ERROR] else []
                       | None => []
-                      end) ++ a_excuse st |}
+                      end) ++ a_excuse st;
+         a_blocked := a_blocked st |}
+  | DX => st_objs st (a_objs st) (a_wait st) (transport_error :: a_excuse st)
+  | DW b => {| a_objs := a_objs st; a_goaway := a_goaway st; a_wait := a_wait st; a_lastgo := a_lastgo st;
+               a_excuse := a_excuse st; a_blocked := b |}
   | DI op =>
       match op_target op with
       | Some id =>
@@ -124,7 +143,8 @@ Definition app_step (st : astate) (e : dev) : astate :=
 Definition app_after (t : list dev) : astate := fold_left app_step t astate0.
 
 Definition all_ended (st : astate) : Prop := a_objs st = [].
-Definition drained (st : astate) : Prop := a_goaway st = true /\ a_objs st = [] /\ a_wait st = [].
+Definition drained (st : astate) : Prop :=
+  a_goaway st = true /\ a_objs st = [] /\ a_wait st = [] /\ a_blocked st = false.
 
 Definition drain_safe (t : list dev) : Prop :=
   forall a b, t = a ++ DO ENone :: b -> all_ended (app_after a).
@@ -138,7 +158,7 @@ Definition is_nilb {A} (l : list A) : bool := match l with [] => true | _ => fal
 Definition drain_check (st : astate) (e : dev) : bool :=
   match e with
   | DO ENone => is_nilb (a_objs st)
-  | DO EPending => negb (a_goaway st && is_nilb (a_objs st) && is_nilb (a_wait st))
+  | DO EPending => negb (a_goaway st && is_nilb (a_objs st) && is_nilb (a_wait st) && negb (a_blocked st))
   | DO (EErr c) => existsb (N.eqb c) (a_excuse st)
   | _ => true
   end.
